@@ -230,6 +230,17 @@ func registerVerif(p *Program) {
 	old := p.intr
 	_ = old
 	p.reg("verif:verifNative", func(e *Exec, g *G, a []Value) Value { return e.tc.Bool(false) })
+	boolArgs := func(e *Exec, v Value) []*Term {
+		var out []*Term
+		for _, x := range e.sliceToValues(v.(SliceV)) {
+			out = append(out, x.(*Term))
+		}
+		return out
+	}
+	p.reg("verif:verifAll", func(e *Exec, g *G, a []Value) Value { return e.tc.And(boolArgs(e, a[0])...) })
+	p.reg("verif:verifAny", func(e *Exec, g *G, a []Value) Value { return e.tc.Or(boolArgs(e, a[0])...) })
+	p.reg("verif:verifImplies", func(e *Exec, g *G, a []Value) Value { return e.tc.Implies(a[0].(*Term), a[1].(*Term)) })
+	p.reg("verif:verifIteInt", func(e *Exec, g *G, a []Value) Value { return e.tc.Ite(a[0].(*Term), a[1].(*Term), a[2].(*Term)) })
 	p.reg("verif:verifTier", func(e *Exec, g *G, a []Value) Value { return e.tc.Const(64, uint64(curTier)) })
 	p.reg("verif:verifAEADHavoc", func(e *Exec, g *G, a []Value) Value {
 		e.aeadSt().havoc = a[0].(*Term).IsTrue()
@@ -314,6 +325,7 @@ func registerVerif(p *Program) {
 		if c.IsFalse() {
 			return nil
 		}
+		e.sol.label = "reach:" + label
 		r := e.sol.Check(c)
 		e.sol.Pop()
 		if r == RSat {
@@ -419,6 +431,7 @@ func mapArg(v Value) *MapV {
 // obligation: assert c on the current path.
 func (e *Exec) obligation(label string, c *Term) {
 	e.stats.obligations++
+	e.sol.label = "obligation:" + label
 	if c.IsTrue() {
 		e.stats.discharged++
 		return
